@@ -393,9 +393,40 @@ def optStr : Option Pt → String
   | none => "none"
   | some p => "some " ++ p.str
 
+/-- a Rect of zero width or height, a Triangle with collinear corners (values of an areal *type* that are segments or points) -/
+partial def hasDegenerateAreal : Geom → Bool
+  | .rect mn mx => mn.x == mx.x || mn.y == mx.y
+  | .triangle a b c => orient a b c == .col
+  | .collection gs => gs.any hasDegenerateAreal
+  | _ => false
+
+/-- the members that really are areal, collections flattened -/
+partial def arealMembers : Geom → List Geom
+  | .collection gs => gs.flatMap arealMembers
+  | .rect mn mx => if mn.x == mx.x || mn.y == mx.y then [] else [.rect mn mx]
+  | .triangle a b c => if orient a b c == .col then [] else [.triangle a b c]
+  | .polygon p => if p.ext.isEmpty then [] else [.polygon p]
+  | .multiPolygon ps => if ps.all (fun p => p.ext.isEmpty) then [] else [.multiPolygon ps]
+  | _ => []
+
 def handleIp (inp out : List String) : String :=
   match P.run geometry inp, P.run ipOut out with
   | some g, some o =>
+    -- collections with degenerate values of an areal type: the exact model of the selection is not run on them; what is owed
+    -- is the property itself — with a real areal member present the point lies strictly inside the areal part
+    if hasDegenerateAreal g then
+      let am := arealMembers g
+      if am.isEmpty || !inDom (.collection am) then skip "invalid-operand" else
+      let prop := match o with
+        | .ipanic => "FAIL:panic"
+        | .inone => "FAIL:none-for-nonempty"
+        | .isome x y =>
+          match xpt? x y with
+          | none => "FAIL:non-finite"
+          | some c => if locate (.collection am) c == .inside then "PASS"
+                      else "FAIL:not-strictly-inside-the-areal-part-beside-degenerate-members"
+      reply true prop "op=ip degenerate-areal-member impl-vs-spec-only"
+    else
     if !inDom g then skip "invalid-operand" else
     let cs := coordsIter g
     let scale := maxAbs cs + 1
